@@ -6,9 +6,10 @@ Model: InToto/Model/Glob.lean (byte-level mirror of in_toto/match.go, `bytewise 
 is the repaired star loop).  Spec: InToto/Spec/Glob.lean.
 -/
 import InToto.Proofs.Glob
+import InToto.Proofs.GlobUtf8
 
 namespace InToto.C17
-open InToto.Glob InToto.GlobSpec
+open InToto.Glob InToto.GlobSpec InToto.GlobUtf8
 
 /-- Code points of an ASCII byte string. -/
 def runes (b : Bytes) : List Nat := b.map UInt8.toNat
@@ -53,5 +54,29 @@ theorem bytewise_star_was_wrong :
     filterHas true [0x2A, 0x3F, 0x3F] [0xE2, 0x82, 0xAC] = true ∧
     filterHas false [0x2A, 0x3F, 0x3F] [0xE2, 0x82, 0xAC] = false := by
   decide
+
+/-- C17 (ALL of UTF-8, unbounded lengths): for a valid UTF-8 pattern and a valid UTF-8 name, the
+    name is in `Set.Filter(pattern)` exactly when the pattern, read as a sequence of CODE POINTS, is
+    well-formed under the documented grammar and matches the whole name, read as a sequence of code
+    points: `*` any sequence of characters (including `/`), `?` exactly one character however many
+    bytes it has, classes and ranges over code points, backslash escapes, every other character
+    itself.  (`utf8Runes` decodes as Go's utf8.DecodeRuneInString does; `none` = not valid UTF-8.) -/
+theorem correct_for_all_utf8 (p n : Bytes) (rp rn : List Nat) (hp : utf8Runes p = some rp) (hn : utf8Runes n = some rn) :
+    filterHas false p n = true ↔ ∃ is, parsePat rp = some is ∧ Matches is rn :=
+  correct_utf8 p n rp rn hp hn
+
+/-- C17: a malformed pattern matches nothing, for all of UTF-8 -/
+theorem malformed_matches_nothing_utf8 (p n : Bytes) (rp rn : List Nat) (hp : utf8Runes p = some rp)
+    (hn : utf8Runes n = some rn) (h : parsePat rp = none) : filterHas false p n = false :=
+  malformed_utf8 p n rp rn hp hn h
+
+/-- the ASCII theorem is the special case: ASCII strings are valid UTF-8, code points = bytes -/
+theorem ascii_is_a_special_case (b : Bytes) (h : ∀ x ∈ b, x < 128) : utf8Runes b = some (b.map UInt8.toNat) :=
+  ascii_is_utf8 b h
+
+/-- `?` matches exactly the names of ONE code point (the repaired defect stated positively) -/
+theorem question_mark_is_one_character (n : Bytes) (rn : List Nat) (hn : utf8Runes n = some rn) :
+    filterHas false [0x3F] n = true ↔ rn.length = 1 :=
+  quest_one_code_point n rn hn
 
 end InToto.C17
